@@ -22,6 +22,8 @@ CONSTANTS
   MaxTrip = %d
   MaxSteps = %d
   MaxDepth = %d
+  MaxDec = %d
+  Full = %s
 INVARIANT Emit
 CHECK_DEADLOCK FALSE
 """
@@ -31,9 +33,9 @@ ANALYSIS_TIMEOUT_S = 5.0     # the fixed point of nested tuple types (x = (x, 1)
 
 TIERS = {
     # fam_full: exhaustive family sizes; fam_sample: (size, how many sampled); rnd: (count, statement budget)
-    'quick': dict(fam_full=(1, 2), fam_sample=((3, 1300),), rnd=((900, 8), (500, 12)), max_trip=2, max_steps=60),
+    'quick': dict(fam_full=(1, 2), fam_sample=((3, 1300),), rnd=((900, 8), (500, 12)), max_trip=2, max_steps=60, max_dec=8),
     'thorough': dict(fam_full=(1, 2, 3), fam_sample=((4, 9000),), rnd=((14000, 8), (8000, 12), (3000, 16)),
-                     max_trip=2, max_steps=80),
+                     max_trip=2, max_steps=80, max_dec=10),
 }
 
 
@@ -151,7 +153,10 @@ def _export_one(tree):
     signal.signal(signal.SIGALRM, _alarm)
     signal.setitimer(signal.ITIMER_REAL, ANALYSIS_TIMEOUT_S)
     try:
-        c = X.export_claims(_G['mods'], _G['tables'], tree, p, src)
+        c = X.export_claims(_G['mods'], _G['tables'], tree, p, src, 0)
+        c2 = X.export_claims(_G['mods'], _G['tables'], tree, p, src, 1)
+        if c2 != c:
+            c = [c, c2]
     except _Diverged:
         return p, src, None, 'diverged'
     except Exception as e:      # the analysis (or the exporter) failed on this program
@@ -188,12 +193,15 @@ def _replay_chunk(args):
             codes[pid] = R.compile_program(p)
         ev, out = R.run(codes[pid], p, t['dec'])
         n += 1
-        exp_ev = [[e['o'], list(e['t'])] for e in t['ev']]
         exp_out = {'k': t['out']['k'], 't': list(t['out']['t'])}
-        if ev != exp_ev or out != exp_out:
-            first = next((i for i in range(min(len(ev), len(exp_ev))) if ev[i] != exp_ev[i]), min(len(ev), len(exp_ev)))
-            bad.append(dict(pid=pid, dec=t['dec'], spec_out=exp_out, cpython_out=out, first_diff=first,
-                            spec_ev=exp_ev[first:first + 3], cpython_ev=ev[first:first + 3]))
+        if (len(ev), R.hash_events(ev)) != (t['evn'], t['evh']) or out != exp_out:
+            d = dict(pid=pid, dec=t['dec'], spec_out=exp_out, cpython_out=out, spec_events=[t['evn'], t['evh']],
+                     cpython_events=[len(ev), R.hash_events(ev)])
+            if t['ev']:                        # Full mode: show where the sequences part
+                exp_ev = [[e['o'], list(e['t'])] for e in t['ev']]
+                first = next((i for i in range(min(len(ev), len(exp_ev))) if ev[i] != exp_ev[i]), min(len(ev), len(exp_ev)))
+                d.update(first_diff=first, spec_ev=exp_ev[first:first + 3], cpython_ev=ev[first:first + 3])
+            bad.append(d)
             if len(bad) > 5:
                 break
     return n, bad
@@ -224,6 +232,8 @@ def replay_all(progs_by_pid, terms, procs):
 def signature(b, p):
     """Root-cause class of one monitor record, from what the specification knows about it."""
     okind = p['exprs'][b['o'] - 1]['kind']
+    if b['unk']:
+        return 'c19:stale-claim-after-operand-became-unknown'
     if b['wrel'] == 'store':
         return 'c19:binding-claim-misses-type:%s:%s' % (okind, b['wk'])
     cause = None
@@ -231,7 +241,7 @@ def signature(b, p):
         cause = 'for-target-keeps-old-type'
     elif b['wk'] == 'aug' and not b['wc']:
         cause = 'augassign-type-not-updated'
-    elif b['wrel'] == 'inner':
+    elif b['wnl'] and b['wrel'] == 'other':
         cause = 'nonlocal-rebinding-invisible-to-caller'
     elif b['wk'] in ('assign', 'unpack', 'param') and not b['wc']:
         cause = 'assign-of-unknown-keeps-old-type'
@@ -243,15 +253,18 @@ def signature(b, p):
 
 
 class Batch:
-    def __init__(self, tables, tier_cfg, name='TypeSem', workers=WORKERS):
+    def __init__(self, tables, tier_cfg, name='TypeSem', workers=WORKERS, full=False):
         self.tables = tables
-        self.cfg = CFG % (tier_cfg['max_trip'], tier_cfg['max_steps'], 3)
+        self.cfg = CFG % (tier_cfg['max_trip'], tier_cfg['max_steps'], 3, tier_cfg['max_dec'], 'TRUE' if full else 'FALSE')
+        self.full = full
         self.name = name
         self.workers = workers
 
     def run(self, trees, rep=None, replay=True, coverage=False):
         """Returns dict(progs, srcs, claims, terms, findings, stats); findings = list of (signature, pid, record, term)."""
+        tm = common.Timer()
         exported = export_all(trees, self.tables, self.workers)
+        t_export = tm.s()
         diverged = [i for i, e in enumerate(exported) if e[3] == 'diverged']
         if len(diverged) > max(3, len(trees) // 100):
             raise common.MachineryError('type inference did not terminate within %.0fs on %d of %d programs; first:\n%s' % (
@@ -269,7 +282,7 @@ class Batch:
         try:
             pf, cf = os.path.join(d, 'progs.json'), os.path.join(d, 'claims.json')
             with open(pf, 'w') as f:
-                json.dump(progs, f)
+                json.dump(L.batch(progs), f)
             with open(cf, 'w') as f:
                 json.dump(claims, f)
             res = tlc.run_tlc('TypeSem', self.cfg, env=dict(C19_PROGS=pf, C19_CLAIMS=cf), workers=self.workers,
@@ -283,12 +296,15 @@ class Batch:
         seen = {t['pid'] for t in terms}
         if len(seen) != len(progs):
             raise common.MachineryError('TLC reported terminal states for %d of %d programs' % (len(seen), len(progs)))
-        stats = dict(programs=len(progs), executions=len(terms), analysis_diverged=len(diverged))
+        stats = dict(programs=len(progs), executions=len(terms), analysis_diverged=len(diverged),
+                     t_export_s=t_export, t_tlc_s=res.wall_s)
         for t in terms:
             stats['out_' + t['out']['k']] = stats.get('out_' + t['out']['k'], 0) + 1
         if replay:
+            tm = common.Timer()
             n, bad = replay_all(dict(enumerate(progs)), terms, self.workers)
             stats['replayed'] = n
+            stats['t_replay_s'] = tm.s()
             if bad:
                 b = bad[0]
                 raise common.MachineryError(
